@@ -542,11 +542,24 @@ def scanner_lineno(text, pos):
     v = text[:pos]
     return 1 + v.count('\n') + v.count('\r') - v.count('\r\n')
 
+def _f27_open():
+    """F27 is open while known_findings.d/C16.json lists it with status "known".  Once it is repaired
+    in /repo and the entry is switched to "fixed", no raise site of pybtex builds an error with a
+    non-text file name any more: such records become out-of-domain input (still compared with the
+    model, no demand by the oracle); the real .bst input stays in the real-input streams as a
+    regression test."""
+    try:
+        d = json.load(open(os.path.join(VERIF, 'known_findings.d', 'C16.json')))
+        return any(f.get('id') == 'F27' and f.get('status') == 'known' for f in d.get('findings', []))
+    except Exception:
+        return False
+F27_OPEN = _f27_open()
+
 def wellformed(rec):
     """is this record the state of an error pybtex itself can construct from user input?"""
     eid, msg, fn, kind, ctx = rec
     if fn == [1]:
-        return True       # an int as file name is what builtins.py:214 passes (finding F27)
+        return F27_OPEN   # an int as file name is what builtins.py:214 passes (finding F27)
     if ctx[0] == 1:
         text, ln, pos = S(ctx[1]), unopt(ctx[2]), ctx[3]
         # a TokenRequired is raised in front of a character, after whitespace was skipped
@@ -627,6 +640,9 @@ def oracle_hist(arg, out):
             if e[0] == 6:
                 return 'problem %d was lost: neither collected, raised nor printed' % eid
             if e[0] == 4:
+                if op[1][2] == [1] and not F27_OPEN:
+                    blocks = []      # out-of-domain record (non-text file name): the renderer's exception left every block
+                    continue
                 return 'reporting problem %d raised a foreign exception' % eid
             if blocks and blocks[-1] is not None:
                 if e[:2] != [1, blocks[-1]]:
@@ -767,7 +783,7 @@ def oracle(fn, arg, out):
         return oracle_cmdline(arg, out)
     if fn == 13:
         if arg[0] == 0 and arg[2] == [1]:
-            return 'format_error raised instead of returning text' if out[2][0] != 0 else None
+            return 'format_error raised instead of returning text' if (out[2][0] != 0 and F27_OPEN) else None
         if not construct_ok(arg):
             return None
         if out[0][0] != 0 or out[1][0] != 0 or out[2][0] != 0 or out[4][0] != 0:
